@@ -763,8 +763,19 @@ func (fr *FnRun) applyContract(st *State, site ssa.Instruction, ctr *Contract, f
 			}
 		}
 	}
+	lightCallee := false
+	if fr.ctr != nil {
+		for _, l := range fr.ctr.Light {
+			if strings.HasSuffix(callee, l) {
+				lightCallee = true
+			}
+		}
+	}
 	for _, en := range ctr.Ensures {
 		if skip[en] || en.Internal {
+			continue
+		}
+		if lightCallee && len(en.Props) > 0 {
 			continue
 		}
 		t := fr.evalBool(en.E, penv)
